@@ -60,9 +60,20 @@ Definition astore (a : astate) (ts : list tag) (f : field) (vx : list tag) : ast
 Definition ajoin (a b : astate) : astate :=
   {| av := zipw tunion (av a) (av b); ah := zipw punion (ah a) (ah b) |}.
 
+(* pointwise inclusion of two maps-as-lists (missing index = empty set); one simultaneous pass, so
+   that comparing two abstract states is linear in their size (the generated programs have
+   thousands of variables and the comparison runs at every loop iteration) *)
+Fixpoint lle {A} (sub : list A -> list A -> bool) (a b : list (list A)) : bool :=
+  match a with
+  | [] => true
+  | x :: a' => match b with
+               | [] => sub x [] && lle sub a' []
+               | y :: b' => sub x y && lle sub a' b'
+               end
+  end.
+
 Definition ale (a b : astate) : bool :=
-  forallb (fun i => subset Nat.eqb (getv a i) (getv b i)) (seq 0 (length (av a))) &&
-  forallb (fun i => subset peqb (geth a i) (geth b i)) (seq 0 (length (ah a))).
+  lle (subset Nat.eqb) (av a) (av b) && lle (subset peqb) (ah a) (ah b).
 
 (* bounded ascending iteration towards a post-fixpoint of F above a *)
 Fixpoint iter (n : nat) (F : astate -> option astate) (a : astate) : astate :=
